@@ -707,7 +707,7 @@ func (s *Sym) structLiteral(a *ssa.Alloc, st *types.Struct, at ssa.Instruction) 
 			var val *Term
 			switch d := d.(type) {
 			case *ssa.Store:
-				val = s.Of(d.Val)
+				val = s.objAt(d.Val, d)
 			case ssa.CallInstruction:
 				val = &Term{Op: "out", Name: "fld", Args: []*Term{s.callTerm(d)}, Site: d}
 			}
@@ -864,10 +864,10 @@ func (s *Sym) callTerm(c ssa.CallInstruction) *Term {
 	cc := c.Common()
 	var args []*Term
 	if cc.IsInvoke() {
-		args = append(args, s.Of(cc.Value))
+		args = append(args, s.objAt(cc.Value, c))
 	}
 	for _, a := range cc.Args {
-		args = append(args, s.Of(a))
+		args = append(args, s.objAt(a, c))
 	}
 	t := &Term{Op: "call", Name: calleeName(cc), Args: args, Site: c}
 	if v, ok := c.(ssa.Value); ok {
@@ -959,7 +959,7 @@ func (s *Sym) returnTerm() *Term {
 		}
 		var parts []*Term
 		for _, v := range rp.Vals {
-			parts = append(parts, s.Of(v))
+			parts = append(parts, s.objAt(v, rp.Ret))
 		}
 		var t *Term
 		if len(parts) == 1 {
@@ -1381,7 +1381,7 @@ func (s *Sym) allocLiteral(a *ssa.Alloc) *Term {
 			return nil
 		}
 		seen[fa.Field] = true
-		kvs = append(kvs, &Term{Op: "kv", Name: st.Field(fa.Field).Name(), Args: []*Term{s.Of(store.Val)}, Site: store})
+		kvs = append(kvs, &Term{Op: "kv", Name: st.Field(fa.Field).Name(), Args: []*Term{s.objAt(store.Val, store)}, Site: store})
 	}
 	if len(kvs) == 0 {
 		return nil
@@ -1448,4 +1448,116 @@ func fillerCallee(name string) bool {
 		return true
 	}
 	return false
+}
+
+// objAt: the term of value v as seen at instruction `at`. For pointer-like
+// values this is the base term plus the history of in-place mutations: calls
+// made earlier (dominating `at`) with v as receiver whose results carry no
+// value other than an error or the receiver itself (x.Mod(x, N),
+// P.ScalarMult(r, P), e.UnmarshalBinary(b)). Without this, objects mutated in
+// place would be described by their constructor only.
+func (s *Sym) objAt(v ssa.Value, at ssa.Instruction) *Term {
+	base := s.Of(v)
+	switch v.Type().Underlying().(type) {
+	case *types.Pointer, *types.Interface:
+	default:
+		return base
+	}
+	switch v.(type) {
+	case *ssa.Const, *ssa.Global, *ssa.Function:
+		return base
+	}
+	if base.Op == "builder" || base.Op == "closure" {
+		return base
+	}
+	refs := v.Referrers()
+	if refs == nil {
+		return base
+	}
+	var muts []ssa.CallInstruction
+	for _, r := range *refs {
+		ci, ok := r.(ssa.CallInstruction)
+		if !ok || ssa.Instruction(ci) == at {
+			continue
+		}
+		cc := ci.Common()
+		isRecv := false
+		if cc.IsInvoke() {
+			isRecv = cc.Value == v
+		} else if f := cc.StaticCallee(); f != nil && f.Signature.Recv() != nil && len(cc.Args) > 0 && cc.Args[0] == v {
+			isRecv = true
+		}
+		if !isRecv || !mutatorShape(ci, v) {
+			continue
+		}
+		if at != nil && !dominates(ci, at) {
+			continue
+		}
+		dup := false
+		for _, m := range muts {
+			if m == ci {
+				dup = true
+			}
+		}
+		if dup {
+			continue
+		}
+		muts = append(muts, ci)
+	}
+	if len(muts) == 0 {
+		return base
+	}
+	sort.SliceStable(muts, func(i, j int) bool { return dominates(muts[i], muts[j]) })
+	args := []*Term{base}
+	for _, m := range muts {
+		cc := m.Common()
+		var margs []*Term
+		if cc.IsInvoke() {
+			margs = append(margs, T("const", "self"))
+		}
+		for _, a := range cc.Args {
+			if a == v {
+				margs = append(margs, T("const", "self"))
+			} else {
+				margs = append(margs, s.objAt(a, m))
+			}
+		}
+		args = append(args, &Term{Op: "call", Name: calleeName(cc), Args: margs, Site: m})
+	}
+	return &Term{Op: "obj", Args: args, Src: v}
+}
+
+// mutatorShape: a method call that can only matter through its effect on the
+// receiver: no results, only an error, or results of the receiver's own type;
+// and not a known accumulator handled elsewhere (hash.Hash, Builder).
+func mutatorShape(ci ssa.CallInstruction, recv ssa.Value) bool {
+	cc := ci.Common()
+	name := calleeName(cc)
+	if strings.HasPrefix(name, "(hash.Hash).") || strings.Contains(name, "cryptobyte.Builder).") || strings.Contains(name, "cryptobyte.String).") {
+		return false
+	}
+	res := cc.Signature().Results()
+	for i := 0; i < res.Len(); i++ {
+		t := res.At(i).Type()
+		if isErrorType(t) {
+			continue
+		}
+		if types.Identical(t, recv.Type()) {
+			// chaining style: only counts as a mutation if the result is unused
+			if v, ok := ci.(ssa.Value); ok && v.Referrers() != nil {
+				used := false
+				for _, r := range *v.Referrers() {
+					if _, dbg := r.(*ssa.DebugRef); !dbg {
+						used = true
+					}
+				}
+				if used {
+					return false
+				}
+			}
+			continue
+		}
+		return false
+	}
+	return true
 }
